@@ -9,7 +9,7 @@ from .. import tlc
 from ..common import Report, pmap
 from ..enc import iso, lat, secs_of
 
-FAMILY = r"^(clock\.(init|nsteps|reference|accepts)|tick\.|conv\.|units\.|period\.|format\.)"
+FAMILY = r"^(clock\.(init|nsteps|reference|accepts|refuses_only_invalid)|tick\.|conv\.|units\.|period\.|format\.)"
 
 
 # ---------------------------------------------------------------- drivers (run in workers, real code)
